@@ -9,7 +9,8 @@ class C04(SchedProp):
     row_fn = 'c04_row'
     preplaced_share = 0.1
     clauses = ['reported_at_most_once', 'exactly_one_of_started_waiting_failed_canceled',
-               'idle_pilot_starts_a_fitting_waiter', 'fitting_task_never_failed']
+               'idle_pilot_starts_a_fitting_waiter', 'fitting_task_never_failed',
+               'higher_priority_waiter_not_passed_over', 'bisect_skipped:higher_priority_waiter_not_passed_over']
     rule = ('random scheduler histories as for C01 with cancel requests placed between any two steps of the loop; '
             'non-trivial = >= 2 tasks held simultaneously and >= 1 task waited')
 
